@@ -2,10 +2,12 @@
 
 Two explorations, one oracle (a dict model of the documented selection rule):
 
-* static: every `$schema` spelling x every body on which the drafts disagree x
-  discriminating instances x entry points {validator_for (with / without
-  default=), jsonschema.validate (with / without cls=), cli.run (with / without
-  --validator)};
+* static: every `$schema` spelling x every body on which the drafts disagree
+  (keywords; and bodies that declare their own URI with `id` / `$id` / both and
+  refer to their own definitions through it, whose behaviour depends on the
+  selected class's ID_OF) x discriminating instances x entry points
+  {validator_for (with / without default=), jsonschema.validate (with / without
+  cls=), cli.run (with / without --validator, with / without --base-uri)};
 * histories (LEVEL model_checking): every sequence up to the depth bound over a
   menu of operations that are registrations -- every way a class can reach
   validates(): create(version=), extend(version=), validates() on a class made
@@ -157,8 +159,8 @@ INSTANCES_T = INSTANCES_Q + [2, -1, 5, 1.5, None, True, [], [1, "a"], {"b": 1}, 
 STORE = {"http://idbase.test/item.json": {"type": "string"},
          "http://dollarbase.test/item.json": {"type": "integer"}}
 
-# (label, body) — every body is one on which at least two drafts disagree
-# (verdict, error, or acceptance of the schema itself)
+# (label, body) — bodies on which at least two drafts disagree (verdict, error, or acceptance of the schema
+# itself); for the few on which they do not (own-id:*:fragment-only) the measured non-trivial count says so
 BODIES = [
     ("empty", {}),
     ("exclusiveMinimum-boolean", {"minimum": 0, "exclusiveMinimum": True}),
@@ -183,6 +185,18 @@ BODIES = [
                          "properties": {"a": {"$ref": "item.json"}}}),
     ("id-vs-$id-file", None),       # built per workspace: file:// ids with real files
 ]
+# Bodies whose behaviour depends on how the selected class reads a schema's own URI (its ID_OF): the root
+# declares its URI with `id`, with `$id`, or with both (two different URIs), and a reference reaches one of the
+# root's definitions through the `id` URI, through the `$id` URI, relative to the root's own URI, or by a bare
+# fragment.  Built per workspace: the URIs are file:// URIs below the scratch directory, and under each of the
+# two there IS a document whose definition differs from the root's (and from the other one's), so reading the
+# wrong keyword -- or not storing the root under its own URI -- changes verdicts, not only errors.
+OWN_ID_BODIES = [("own-id:%s:%s" % (keys, ref), None)
+                 for keys, refs in (("id", ("through-id", "relative", "fragment-only")),
+                                    ("$id", ("through-$id", "relative", "fragment-only")),
+                                    ("both", ("through-id", "through-$id", "relative", "fragment-only")))
+                 for ref in refs]
+BODIES += OWN_ID_BODIES
 BODY_INDEX = {l: i for i, (l, _) in enumerate(BODIES)}
 
 
@@ -226,6 +240,10 @@ class Workspace(object):
         for d, doc in (("idbase", {"type": "string"}), ("dollarbase", {"type": "integer"})):
             os.mkdir(os.path.join(self.dir, d))
             self.write(os.path.join(d, "item.json"), json.dumps(doc))
+        for d, t in (("idroot", "string"), ("dollarroot", "array")):
+            os.mkdir(os.path.join(self.dir, d))
+            self.write(os.path.join(d, "s.json"), json.dumps({"definitions": {"int": {"type": t}}}))
+        self.base_uri = "file://%s/idbase/" % self.dir       # what --base-uri is given
         self.instances = instances
         for i, x in enumerate(instances):
             self.write("x%02d.json" % i, json.dumps(x))
@@ -237,10 +255,30 @@ class Workspace(object):
 
     def body(self, lbl):
         b = BODIES[BODY_INDEX[lbl]][1]
-        if b is None:
+        if b is None and lbl.startswith("own-id:"):
+            _, keys, ref = lbl.split(":")
+            b = self.own_id_body(keys, {"a": ref})
+        elif b is None:
             b = {"id": "file://%s/idbase/" % self.dir, "$id": "file://%s/dollarbase/" % self.dir,
                  "properties": {"a": {"$ref": "item.json"}}}
         return b
+
+    def own_id_body(self, keys, props):
+        """props: property name -> how its $ref reaches the root's definition `int` (type integer)."""
+        uri = {"id": "file://%s/idroot/s.json" % self.dir, "$id": "file://%s/dollarroot/s.json" % self.dir}
+        ref = {"through-id": uri["id"] + "#/definitions/int", "through-$id": uri["$id"] + "#/definitions/int",
+               "relative": "s.json#/definitions/int", "fragment-only": "#/definitions/int"}
+        b = {k: uri[k] for k in (("id", "$id") if keys == "both" else (keys,))}
+        b["definitions"] = {"int": {"type": "integer"}}
+        b["properties"] = {name: {"$ref": ref[how]} for name, how in sorted(props.items())}
+        return b
+
+    def rehome(self, schema):
+        """A recorded schema names a scratch directory that is gone: the same schema in this workspace."""
+        text = json.dumps(schema)
+        for old in sorted(set(re.findall(r"file://(/[^\"]*?/jsv-c20-[^/\"]+)/", text))):
+            text = text.replace(old, self.dir)
+        return json.loads(text)
 
     def close(self):
         shutil.rmtree(self.dir, ignore_errors=True)
@@ -399,26 +437,30 @@ def check_validate(model, schema, lbl, x, explicit=None):
     return prob, {"selected": label(sel), "expected": exp, "observed": obs, "warned": warned}, exp[0]
 
 
-def check_cli(model, ws, schema, lbl, vname):
-    """One run of cli.run over ALL instance files; fold model with the class the CLI has to select."""
+def check_cli(model, ws, schema, lbl, vname, base_uri=False, only=None):
+    """One run of cli.run over ALL instance files (or those numbered in `only`), without or with --base-uri;
+    fold model with the class the CLI has to select."""
     ws.nschema += 1
     sname = "schema.json"
     ws.write(sname, json.dumps(schema))
     spath = os.path.join(ws.dir, sname)
     argv = []
-    for i in range(len(ws.instances)):
+    which = list(range(len(ws.instances))) if only is None else list(only)
+    for i in which:
         argv += ["-i", os.path.join(ws.dir, "x%02d.json" % i)]
     argv += ["--error-format", MARK]
     if vname:
         argv += ["--validator", vname]
+    if base_uri:
+        argv += ["--base-uri", ws.base_uri]
     argv.append(spath)
     if vname:
         sel, exp_warn = CLI_CLASS[vname], None
     else:
         sel, exp_warn = model.select(schema)
     sdesc = {"token": sname, "state": "json", "value": schema}
-    idesc = [{"token": "x%02d.json" % i, "state": "json", "value": x} for i, x in enumerate(ws.instances)]
-    exp = climodel.expect(jsonschema, sel, sdesc, idesc)
+    idesc = [{"token": "x%02d.json" % i, "state": "json", "value": ws.instances[i]} for i in which]
+    exp = climodel.expect(jsonschema, sel, sdesc, idesc, base_uri=ws.base_uri if base_uri else None)
     so, se = io.StringIO(), io.StringIO()
     status = raised = None
     with warnings.catch_warnings(record=True) as wl:
@@ -483,14 +525,14 @@ REG_Q = [
     OP("validates a/$id", "validates", version="c20-a", key="$id", uri=U % "a#"),
     OP("validates b/id", "validates", version="c20-b", key="id", uri=U % "b"),
     OP("validates c/no-id", "validates", version="c20-c", key=None, uri=None),
-    OP("create x", "create", version="c20 x", key="$id", uri=U % "x#"),
+    OP("create x", "create", version="c20 x", key="$id", uri="urn:c20:meta-x#"),
     OP("extend Draft4", "extend", version="c20 y4", base=4),
     OP("extend Draft7", "extend", version="c20 y7", base=7),
     OP("validates draft7 (existing name, new class, own id)", "validates", version="draft7", key="$id", uri=U % "r#"),
     OP("validates draft3 := Draft6Validator (existing name, existing class)", "reuse", version="draft3", base=6),
     OP("validates c20-back := Draft7Validator (new name, existing class)", "reuse", version="c20-back", base=7),
     OP("extend Draft7, META_SCHEMA := copy with own $id, validates", "extend-reassign", version="c20 house", base=7,
-       uri="urn:c20:meta-h#"),
+       uri=U % "h#"),
     OP("subclass of Draft4Validator with own META_SCHEMA, @validates", "subclass-own-meta", version="c20 legacy",
        base=4, uri=U % "l"),
     OP("subclass of Draft6Validator, @validates", "subclass", version="c20 sub6", base=6),
@@ -554,7 +596,7 @@ def custom_uris(thorough):
                    for u in (o[2].get("uri"), o[2].get("uri0")) if u})
 
 
-HIST_INSTANCES = [2]
+HIST_INSTANCES = [2, {"a": 1, "b": 1}]      # [0]: behind every id; [1]: the own-id references behind custom classes
 
 
 def is_lookup(spec):
@@ -757,9 +799,30 @@ def probe_cli(model, ids, ws, broken=()):
     for sp in ids:
         if norm(sp) in broken:
             continue
-        kind, detail, _ = check_cli(model, ws, behaviour_schema(sp), "tag", None)
+        kind, detail, _ = check_cli(model, ws, behaviour_schema(sp), "tag", None, only=[0])
         if kind:
             probs.append(("cli", kind, dict(detail, spelling=sp)))
+    return probs
+
+
+def probe_own_id_refs(model, ids, ws, broken=()):
+    """Behind a registered class that is not one of the four stock ones: a schema that declares its own URI
+    with `id` AND (another one) with `$id`, one property referring to its definition through the first URI
+    and one through the second.  Which of the two stays inside the document is decided by the class's ID_OF;
+    validate() and the command line (without / with --base-uri) have to do what the class does."""
+    probs = []
+    for sp in ids:
+        if norm(sp) in broken:
+            continue
+        schema = build_schema(sp, ws.own_id_body("both", {"a": "through-id", "b": "through-$id"}))
+        prob, detail, _ = check_validate(model, schema, "own-id", ws.instances[1])
+        if prob:
+            probs.append(("validate-own-id-refs", prob, dict(detail, spelling=sp)))
+        for base in (False, True):
+            kind, detail, _ = check_cli(model, ws, schema, "own-id", None, base, only=[1])
+            if kind:
+                probs.append(("cli%s-own-id-refs" % ("-base-uri" if base else ""), kind, dict(detail, spelling=sp)))
+                break
     return probs
 
 
@@ -777,6 +840,9 @@ def probe_state(model, table, ids, ws):
     held = [s for key in sorted(model.ids) for s in (key, key + "#")]
     probs += probe_validate(model, held, broken)
     probs += probe_cli(model, held, ws, broken)
+    stock = list(DRAFTS.values())
+    custom = [s for key in sorted(model.ids) if not any(model.ids[key] is c for c in stock) for s in (key, key + "#")]
+    probs += probe_own_id_refs(model, custom, ws, broken)
     return probs
 
 
@@ -891,7 +957,7 @@ def run_history(specs, table, ids, ws, pristine=None):
         # validate() and the command line are functions of the selection: where validator_for is wrong for an id
         # anywhere in this history, what they do behind that id is not reported on top (it shrinks to it)
         bad = set(norm(d["spelling"]) for w, _, d in probs if w == "validator_for" and d["spelling"] != ABSENT)
-        probs = [x for x in probs if not (x[0] in ("validate", "cli") and norm(x[2]["spelling"]) in bad)]
+        probs = [x for x in probs if not (x[0].startswith(("validate", "cli")) and norm(x[2]["spelling"]) in bad)]
     finally:
         restore(snap)
     if not same_registries(snap, snapshot()):
@@ -1057,9 +1123,13 @@ def plan(ctx):
         "units": units,
         "rule": ("static: $schema spelling (each of the four published metaschema ids as is / without '#' / upper-case "
                  "scheme, near misses of each id, absent, unknown URIs, non-URI strings, malformed authorities) and the "
-                 "two boolean schemas x bodies on which drafts disagree%s x instances x entry points "
+                 "two boolean schemas x bodies on which drafts disagree, among them %d whose behaviour depends on the "
+                 "selected class's ID_OF (root URI declared with id / $id / both, a reference reaching a definition of "
+                 "the root through the id URI / the $id URI / relative to the own URI / by fragment only; real "
+                 "documents with other definitions lie under both URIs)%s x instances x entry points "
                  "{validator_for, validator_for(default=Draft3Validator / a sentinel), validate(), validate(cls=each of "
-                 "4 drafts + an unregistered class), cli.run without and with --validator}; cases are distinct "
+                 "4 drafts + an unregistered class), cli.run without and with --validator, each without and with "
+                 "--base-uri}; cases are distinct "
                  "by construction (product of alphabets whose members are pairwise different). histories: every "
                  "sequence of operations over a menu of %d registrations (the ways a class reaches validates(): "
                  "create(version=), extend(version=), validates() on a create()d / an extend()ed class whose "
@@ -1071,11 +1141,13 @@ def plan(ctx):
                  "(nothing looked up, nothing registered before), on the real registries (snapshot, restore, "
                  "restoration verified by identity of every entry), and is checked after its last operation - every "
                  "prefix is a history of its own - with %d spellings x validator_for (3 default= variants) + the name "
-                 "table + validate() and the CLI behind every id the model holds, with / without '#'; what a lookup "
+                 "table + validate() and the CLI behind every id the model holds, with / without '#', + behind every "
+                 "id held by a class other than the four stock ones a schema with both id and $id and references "
+                 "through each (validate(), CLI without / with --base-uri); what a lookup "
                  "operation answers is checked too. Non-trivial = a case on which at least two draft classes behave "
                  "differently (measured: the four classes' outcomes for the body/instance are not all equal), or a "
                  "non-empty history" % (
-                     " and all unordered pairs of bodies merged into one schema" + (
+                     len(OWN_ID_BODIES), " and all unordered pairs of bodies merged into one schema" + (
                          "" if ctx.thorough else " (pairs: only for an absent $schema and the four ids as published)"),
                      nreg, " / modified in place" if ctx.thorough else "", len(ops) - nreg,
                      "; ".join("length 0..%d over %s" % (d, "the whole menu" if len(MENUS[m]) == len(ops) else
@@ -1085,6 +1157,7 @@ def plan(ctx):
                      len(probe_table(ctx.thorough)))),
         "bounds": {"tier": ctx.tier, "spellings": len(sps), "bodies": nb, "instances": len(X),
                    "explicit_classes": len(EXPLICIT), "cli_validator_options": len(CLI_VALIDATORS),
+                   "cli_base_uri_options": 2, "own_id_bodies": len(OWN_ID_BODIES),
                    "history_registration_operations": nreg, "history_lookup_operations": len(ops) - nreg,
                    "history_menus": per_menu, "histories": nh,
                    "distinct_canonical_registry_states_in_model": nstates,
@@ -1155,6 +1228,7 @@ def static_cases(ws, model, sp, kind, bodies, X, res, kinds, first=True):
         # that is already reported: they shrink to it.  Explicit classes are still compared.
         res["counters"]["cases_skipped_because_selection_is_wrong"] = \
             res["counters"].get("cases_skipped_because_selection_is_wrong", 0) + len(bodies) * (len(X) + 1)
+    shown_without_base = set()
     for lbl, body in bodies:
         if body is None:
             body = ws.body(lbl)
@@ -1188,22 +1262,26 @@ def static_cases(ws, model, sp, kind, bodies, X, res, kinds, first=True):
                                         "detail": detail, "size": len(json.dumps(schema)) + len(json.dumps(x))})
         if lbl == "id-vs-$id-store":
             continue        # the command line cannot be handed a store; the file:// twin covers it
-        for vname in CLI_VALIDATORS:
+        for vname, base in itertools.product(CLI_VALIDATORS, (False, True)):
             if vname is None and sel_broken:
                 continue
-            kindp, detail, oclass = check_cli(model, ws, schema, lbl, vname)
+            kindp, detail, oclass = check_cli(model, ws, schema, lbl, vname, base)
             res["ev"] += 1
             res["traces"] += 1
-            oc = "cli%s:%s" % ("" if vname is None else "-validator", oclass[:40])
+            entry = ("cli" if vname is None else "cli-validator") + ("-base-uri" if base else "")
+            oc = "%s:%s" % (entry, oclass[:40])
             res["outcomes"][oc] = res["outcomes"].get(oc, 0) + 1
             if kindp:
-                entry = "cli" if vname is None else "cli-validator"
+                if base and (lbl, vname, kindp) in shown_without_base:
+                    continue        # shows without --base-uri already: shrinks to that case
+                if not base:
+                    shown_without_base.add((lbl, vname, kindp))
                 k2 = shrink_kind(sp, kind, lambda s2: check_cli(
-                    model, ws, build_schema(s2, body), lbl, vname)[0] == kindp)
+                    model, ws, build_schema(s2, body), lbl, vname, base)[0] == kindp)
                 res["viol"].append({"signature": "C20|%s|%s|%s" % (entry, kindp, k2),
                                     "case": {"entry": entry, "schema": schema, "body": lbl, "validator": vname,
-                                             "instances": ws.instances},
-                                    "detail": detail, "size": len(json.dumps(schema)) + 50})
+                                             "base_uri": base, "instances": ws.instances},
+                                    "detail": detail, "size": len(json.dumps(schema)) + 50 + (5 if base else 0)})
         if len(res["samples"]) < 2 and lbl in ("const", "if-then"):
             res["samples"].append({"schema": schema, "instances": X[:4],
                                    "model_selects": label(model.select(schema)[0])})
@@ -1252,16 +1330,17 @@ def run_unit(unit, ctx):
                                                              "body": "bool",
                                                              "cls": None if explicit is None else label(explicit)},
                                                     "detail": detail, "size": 2})
-                    for vname in CLI_VALIDATORS:
-                        kindp, detail, oclass = check_cli(model, ws, schema, "bool", vname)
+                    for vname, base in itertools.product(CLI_VALIDATORS, (False, True)):
+                        kindp, detail, oclass = check_cli(model, ws, schema, "bool", vname, base)
                         res["ev"] += 1
                         res["traces"] += 1
                         if kindp:
-                            entry = "cli" if vname is None else "cli-validator"
+                            entry = ("cli" if vname is None else "cli-validator") + ("-base-uri" if base else "")
                             res["viol"].append({"signature": "C20|%s|%s|boolean-schema" % (entry, kindp),
                                                 "case": {"entry": entry, "schema": schema, "body": "bool",
-                                                         "validator": vname, "instances": ws.instances},
-                                                "detail": detail, "size": 3})
+                                                         "validator": vname, "base_uri": base,
+                                                         "instances": ws.instances},
+                                                "detail": detail, "size": 3 + (1 if base else 0)})
     else:
         _, k, chunk = unit
         mplan = menu_plan(thorough)
@@ -1319,13 +1398,12 @@ def replay(case, ctx):
         explicit = None
         if case.get("cls"):
             explicit = [c for c in EXPLICIT if label(c) == case["cls"]][0]
-        prob, detail, _ = check_validate(model, schema, case["body"], case["instance"], explicit)
+        with Workspace([]) as ws:
+            prob, detail, _ = check_validate(model, ws.rehome(schema), case["body"], case["instance"], explicit)
         return {"reproduced": prob is not None, "problem": prob, "detail": detail}
     if entry.startswith("cli"):
         with Workspace(case["instances"]) as ws:
-            if case["body"] == "id-vs-$id-file":     # the recorded schema names a scratch directory that is gone
-                old = re.search(r"file://(.*?)/idbase/", json.dumps(schema)).group(1)
-                schema = json.loads(json.dumps(schema).replace(old, ws.dir))
-            kindp, detail, _ = check_cli(model, ws, schema, case["body"], case["validator"])
+            kindp, detail, _ = check_cli(model, ws, ws.rehome(schema), case["body"], case["validator"],
+                                         case.get("base_uri", False))
         return {"reproduced": kindp is not None, "problem": kindp, "detail": detail}
     return {"reproduced": False, "error": "unknown entry"}
